@@ -18,6 +18,7 @@ MCRewCustom == [safe |-> 2 * FX, mine |-> -FX, invalid |-> -(FX \div 2)]   \* th
 MCCfg2x2 == [num_rows |-> 2, num_cols |-> 2, num_mines |-> -1, reward_q |-> MCRew]
 MCCfg2x3 == [num_rows |-> 2, num_cols |-> 3, num_mines |-> -1, reward_q |-> MCRew]
 MCCfg3x2 == [num_rows |-> 3, num_cols |-> 2, num_mines |-> -1, reward_q |-> MCRewCustom]
+MCCfg2x3Budget == [num_rows |-> 2, num_cols |-> 3, num_mines |-> -1, reward_q |-> MCRew, move_budget |-> 2]   \* user done function
 MCCfg3x3 == [num_rows |-> 3, num_cols |-> 3, num_mines |-> -1, reward_q |-> MCRew]
 
 (* one representative sequence (ascending) per set of mined cells: the rules only read the set *)
@@ -79,9 +80,12 @@ NumTrue(mask) == Cardinality({ rc \in MsCells : At(mask, rc) })
 (* C09 *) LastHasReason ==
             post = 1 => \/ last.outcome \in {"invalid", "mine"}
                         \/ (last.outcome = "safe" /\ MsSafeRevealed(s) = NR * NC - MCM)
+                        \/ (MoveBudget > 0 /\ s.step_count >= MoveBudget)         \* the user's done function
 (* C11 *) WithinHorizon ==
             /\ Running => (s.step_count = MsSafeRevealed(s) /\ s.step_count < MsHorizonFor(MCM))
             /\ post = 1 => s.step_count <= MsHorizonFor(MCM)
+(* C11: with a user's move budget the episode is over after at most that many clicks, whatever is clicked *)
+(* C11 *) BudgetRespected == MoveBudget > 0 => (Running => s.step_count < MoveBudget)
 (* C12 *) ObsConsistent ==
             /\ Obs(s).board = s.board /\ Obs(s).step_count = s.step_count
             /\ Running => NumTrue(Obs(s).action_mask) = NR * NC - s.step_count
